@@ -248,6 +248,19 @@ def _c14_shard(shard) -> Dict[str, Any]:
                 except Exception:
                     ok = False
             best = dist.get(v, float("inf"))
+            if ok and spec[0] != "denver":
+                # the same, by what the vehicle will actually drive: the lengths and speeds the route's own links carry (on the
+                # generated graphs the search weight IS length / speed, so the two measures must agree -- they differ when a
+                # link id stands for another parallel street than the one the search priced)
+                t_links = sum(l.distance_km / l.speed_kmph * 3600.0 for l in inner)
+                if t_links > best * (1 + 1e-9) + 1e-6:
+                    out["nfindings"] += 1
+                    out["worst"] = max(out["worst"], t_links - best)
+                    if not any(f[0] == "links_of_the_route_slower_than_optimum" for f in out["findings"]):
+                        out["findings"].append(
+                            ("links_of_the_route_slower_than_optimum", f"route from node {u} to node {v}: the links it consists of take {t_links:.3f} s at their own lengths and speeds ({[l.link_id for l in inner]}), the fastest path {best:.3f} s",
+                             {"network": list(spec), "from_node": u, "to_node": v, "graphs_routed_earlier_in_this_process": [list(e) for e in earlier]})
+                        )
             if u != v:
                 out["nontrivial"] += 1
             if len(out["samples"]) < 1 and len(inner) > 1:
